@@ -1,7 +1,8 @@
-import DdoModel.Proofs.NoCapDefs
+import DdoModel.Proofs.CacheClosedDefs
 import DdoModel.Proofs.AnyOrderLayered
-/-! C09 / D14 — **counter-example search for the no-cap caching solver** (`Proofs/NoCapDefs.lean`), on the table family
-`Ddo.C09.Layered` of `Proofs/AnyOrderLayered.lean`.
+/-! C09 / D14 — **counter-example search for the no-cap caching solver** — since the repair of D14 *the* solver of this
+development, `SolverCfg.kturn` of `Proofs/CacheClosedDefs.lean` (the search was written when it was the variant `kturnNC`
+of the then-capped model) — on the table family `Ddo.C09.Layered` of `Proofs/AnyOrderLayered.lean`.
 
 Executable code only (no theorem depends on it).  `searchMain` is the entry point of a small driver (`lean --run`, or a
 compiled executable that imports this module): it draws random tables, keeps those that pass `Layered.check` (hence are
@@ -13,10 +14,11 @@ function `(depth, state) ↦ 1 … 3` runs the solver over
 * random schedules,
 
 (mode 0: random tables; mode 1: point mutants of the three known counter-examples of the capped solver; mode 2: evolution of
-a pool of random tables towards "conditional bounds") and compares the value held at the empty fringe with the optimum `Layered.optimum` (the dynamic program).  `cap = true` runs
-the *capped* solver of `Proofs/CacheClosedDefs.lean` over the same tree — the calibration: the search must rediscover
-`anyOrderOpt_false` there.  Also counted: best-first runs of the no-cap solver whose sequence of popped bounds increases
-(side question (i) of `Props/C09d.lean`). -/
+a pool of random tables towards "conditional bounds") and compares the value held at the empty fringe with the optimum
+`Layered.optimum` (the dynamic program).  `cap = true` runs the *capped* pre-fix solver (`SolverCfg.kturnCapped` of
+`Proofs/CacheClosedDefs.lean`) over the same tree — the calibration: the search must rediscover `anyOrderOpt_false` there.
+Also counted: best-first runs of the no-cap solver whose sequence of popped bounds increases (side question (i) of
+`Props/C09d.lean`). -/
 set_option linter.unusedVariables false
 namespace Ddo.C09.NoCapSearch
 open Ddo Ddo.C01 Ddo.Closed Ddo.C09 Ddo.C09.Layered
@@ -85,7 +87,7 @@ def costBound (T : Tab) : Int := T.cl.foldl (fun a x => max a (max x (-x))) 0
 /-! ## running the solvers -/
 
 def turnFn (cap : Bool) (sv : SolverCfg Int) (s : KSt Int) (N : SubP Int) (rest : List (SubP Int)) : Option (KSt Int) :=
-  if cap then sv.kturn s N rest else sv.kturnNC s N rest
+  if cap then sv.kturnCapped s N rest else sv.kturn s N rest
 
 structure Stats where
   runs : Nat := 0          -- complete runs (empty fringe reached)
@@ -181,7 +183,7 @@ def bestFirstNC (sv : SolverCfg Int) (opt : Int) : Nat → KSt Int → Int → B
     match popMax s.st.fringe with
     | none => (true, s.st.bestLb == opt && !s.st.crashed, mono)
     | some (N, rest) =>
-      match sv.kturnNC s N rest with
+      match sv.kturn s N rest with
       | none => (false, false, mono)
       | some t => bestFirstNC sv opt fuel t N.ub (mono && decide (N.ub ≤ last))
 
